@@ -259,13 +259,15 @@ impl FileWatcher {
         for event in events {
             let links = &self.links_file_watch;
 
-            // a path below the target of a link designates the same file below the link
+            // a path below the target of a link designates the same file below the link, and
+            // the work items are named after the input path as it was given: relative to the
+            // working directory, or absolute (both spellings are reported)
             let paths: Vec<PathBuf> = event
                 .event
                 .paths
                 .iter()
-                .map(|path| {
-                    links
+                .flat_map(|path| {
+                    let mapped = links
                         .iter()
                         .find_map(|(link_location, link_path)| {
                             path.strip_prefix(link_location)
@@ -276,8 +278,9 @@ impl FileWatcher {
                             current_path.and_then(|current_path| {
                                 path.strip_prefix(current_path).ok().map(Path::to_path_buf)
                             })
-                        })
-                        .unwrap_or_else(|| path.clone())
+                        });
+
+                    mapped.into_iter().chain(iter::once(path.clone()))
                 })
                 .collect();
             let mut paths_iterator = paths.iter();
